@@ -4,7 +4,7 @@
    benign data overlay (nulls at nullable positions, list lengths, runtime types);
    the big-step semantics predicts data and resolver calls; every terminal state is
    printed as one JSON case.                                                      *)
-EXTENDS GenDoc, SExec, Json
+EXTENDS GenDoc, SExec, SExec2, Json
 
 CONSTANTS MaxOverlay,    \* number of benign overlay entries (0..MaxOverlay)
           TRSets         \* the sets of registered custom type resolvers to explore (see GQL!EffectiveRT)
@@ -96,6 +96,15 @@ ArgOptsFew == [ f |-> {<<>>, <<ArgV("a", Lit("int", 1))>>, <<ArgV("b", Lit("str"
 AlphaFragVar == AlphaOf([Query |-> {"o"}, T |-> {"s"}])
 DirsMix == {<<>>, <<Dir("include", Lit("bool", TRUE))>>, <<Dir("skip", Lit("var", "v"))>>}
 AlphaDirs2 == AlphaOf([Query |-> {"o"}, T |-> {"s", "d"}])
+\* ---- second schema (SExec2) --------------------------------------------------------------------------
+AlphaOf2(f) == [tn \in DOMAIN TypesExec2 |-> IF tn \in DOMAIN f THEN f[tn] ELSE {}]
+AlphaS2 == AlphaOf2([RootQ |-> {"node", "nodes", "find", "n", "k"}, Node |-> {"id", "next", "__typename"}, Leaf |-> {"v", "tags", "d"}, Branch |-> {"kids", "kind"}, Thing |-> {"__typename"}])
+AlphaS2G == AlphaOf2([RootQ |-> {"grid", "nodes", "k"}, Leaf |-> {"v", "tags", "id"}, Node |-> {"id"}])
+AlphaS2M == AlphaOf2([RootM |-> {"bump", "leaf"}, Leaf |-> {"id", "v"}])
+ArgOptsS2 == [ find |-> {<<ArgV("id", Lit("str", "x1"))>>, <<ArgV("kind", Lit("enum", "K2")), ArgV("id", Lit("str", "x5"))>>, <<ArgV("id", Lit("var", "i"))>>},
+               bump |-> {<<>>, <<ArgV("by", Lit("int", 3))>>, <<ArgV("by", Lit("var", "n"))>>} ]
+VarTypesS2 == [ i |-> [type |-> <<"NN", "ID">>, hasDefault |-> FALSE, default |-> NoLit], n |-> [type |-> <<"Int">>, hasDefault |-> FALSE, default |-> NoLit] ]
+VarValsS2 == [ i |-> {Str("vi")}, n |-> {Int(4), Null} ]
 AllFieldNames == UNION {DOMAIN TypesExec[tn].fields : tn \in DOMAIN TypesExec}
 SomeFieldNames == {"o", "sn", "m2", "m3", "lnn"}
 AlphaMut == AlphaOf([Mutation |-> {"m1", "m3", "ml"}, T |-> {"s", "o"}])
@@ -159,7 +168,7 @@ R1_Exec == phase = "done" =>
 OverlayJson(ov) == [p \in DOMAIN ov |-> ov[p]]
 PairsOf(f) == LET S == DOMAIN f IN {<<x, f[x]>> : x \in S}
 
-ASSUME PrintT(ToJson([kind |-> "schema", types |-> TypesExec, roots |-> RootsExec]))
+ASSUME PrintT(ToJson([kind |-> "schema", types |-> Types, roots |-> Roots]))
 
 Emit == phase = "done" =>
   LET b == BigStep(Ctx) IN
